@@ -788,7 +788,7 @@ def merge_table(ctx, rid: str, fields=None) -> None:
     T._tables(ctx, rid, [("heapq.merge", _merge_cells)], "asyncgen", "merge_table_cells", fields or T.ITEMS_AND_END, make_ops=factory)
 
 
-def tee_construction(ctx, rid: str, P: Dict[str, str]) -> Optional[bool]:
+def tee_construction(ctx, rid: str, P: Dict[str, str], retention: bool = False) -> Optional[bool]:
     """What ``Tee.__init__`` builds, read off the evaluated heap: one shared list of n distinct, empty
     buffers; child k is a tee_peer frame whose buffer is element k of that list and whose ``peers`` is
     that very list; all children share one source iterator.  None = construction not evaluable."""
@@ -818,14 +818,36 @@ def tee_construction(ctx, rid: str, P: Dict[str, str]) -> Optional[bool]:
         peers = [f.get(P["peers"]) for f in frames]
         buffers = [f.get(P["buffer"]) for f in frames]
         sources = [f.get(P["iterator"]) for f in frames]
+        if any(x is UNKNOWN or x is None for x in peers + buffers + sources):
+            return None  # the model could not follow how an argument was built
         shared_ok = all(ops._is_list(x) for x in peers) and len(set(peers)) == 1
         elems = ops._elements(peers[0], st) if shared_ok else None
+        if retention:
+            # (C20) a finished child takes its buffer out of the shared list, and with that the buffer must be gone:
+            # the tee object refers to the buffers through that list only
+            if not shared_ok or elems is None:
+                return None
+            ctx.count("tee_constructions")
+            extra = []
+            for fld, val in st["@heap"][tee[1]][1].items():
+                if val == peers[0]:
+                    continue
+                el = ops._elements(val, st)
+                if (el is not None and any(x in elems for x in el)) or val in elems:
+                    extra.append(fld)
+            ctx.check(not extra, rid, init, "children",
+                      f"[n={n_children}] the tee object refers to its children's buffers only through the list the children "
+                      "remove their buffer from (a buffer whose child finished is not kept alive by the tee object)",
+                      witness=f"also referenced from field(s) {extra}")
+            ok_all = ok_all and not extra
+            continue
         ok = shared_ok and elems is not None and len(elems) == n_children and len(set(elems)) == n_children \
             and all(ops._is_list(b) and ops._get(st, b) == () for b in elems) and buffers == list(elems) \
-            and len(set(sources)) == 1
+            and set(sources) == {("IT", 0)}
         ctx.check(bool(ok), rid, init, "children",
                   f"[n={n_children}] the children share one list of {n_children} distinct empty buffers; child k reads buffer k and "
-                  "is handed that very list as peers; all children pull from one source iterator",
+                  "is handed that very list as peers; all children pull from the user's iterator itself (no library "
+                  "generator in between that a cancelled child would take down with it)",
                   witness=f"peers={peers} buffers={buffers} shared list holds {elems}")
         ok_all = ok_all and bool(ok)
     return ok_all
